@@ -115,6 +115,8 @@ Definition cmd_ok (c : cfgT) (f : fsT) (cmd : command) : bool :=
   match cmd with
   | CRename _ n => negb (beq n LCF)
   | CAdd _ base cf => if negb (beq cf []) || beq base [] then add_basis_ok c f cf else true
+  (* a file overwritten by hand (not a layercake command): not a layerconfig nor its temporary *)
+  | CEdit p _ => ends_ok p && negb (beq (pathbase p) LCF) && negb (beq (pathbase p) LCT)
   | _ => true
   end.
 Definition wf_world (c : cfgT) (f : fsT) (cmd : command) : bool :=
@@ -232,7 +234,7 @@ Proof.
   apply h_on_fres; [now intros g [Hg _]|]. intros g f' [Hg ->] Hr.
   unfold open_trunc in Hr. destruct (lstat g t) as [[|old|lt]|] eqn:El; try discriminate.
   - exfalso. apply fs_get_in in El. destruct (Hg _ _ El) as (_ & H2 & _). now apply (H2 Hst).
-  - destruct (is_dir g (pathdir t)); [|discriminate]. injection Hr as <-. exists g. auto.
+  - destruct (is_dir g (pathdir t) && names_fit t); [|discriminate]. injection Hr as <-. exists g. auto.
 Qed.
 
 Lemma append_tmp t x c0 g : Jw t x g -> Jw t (x ++ c0) (append_file g t c0).
@@ -714,6 +716,15 @@ Proof.
   - apply Gen. intros ld HML. apply PJ. apply (p_ret J Sf).
   - apply PJ. apply (p_bind J Sf); [now apply p_apply_op|intros u; apply (p_ret J Sf)].
   - apply PJ. apply (p_bind J Sf); [now apply p_apply_op|intros u; apply (p_ret J Sf)].
+  - apply PJ. rewrite <- Ecm in Hok. cbn [cmd_ok] in Hok.
+    apply andb_true_iff in Hok as [Hok H3]. apply andb_true_iff in Hok as [H1 H2].
+    apply negb_true_iff in H2, H3. apply beq_false in H2, H3.
+    assert (Hphi : forall y, Phi p y) by (intros y; repeat split; auto; contradiction).
+    apply h_bind with (Q := fun f g => J g /\ f = g); [apply h_get_fs|]. intros f.
+    destruct (open_trunc f p) as [f'|] eqn:Eo; [|apply h_fail; intros g [Hg _]; now apply JE].
+    apply h_bind with (Q := fun _ => J); [|intros u; apply (p_ret J Sf)].
+    apply h_put_fs. intros g [Hg ->]. apply FJ_append; [exact Hphi|].
+    eapply FJ_open_trunc; [exact Eo|apply Hphi|exact Hg].
 Qed.
 
 End Inv.
